@@ -253,6 +253,21 @@ def run(model, col, tier):
 
     _c01.check_new_variable_fresh(col, vm, "R12.4")
     _lowering.check_scope_tables(model, col, "R12.4")
+    # with optimisation on, a read is only replaced by the value of the store *directly* before it (= R02.7): stepping over a
+    # declaration would carry the value of a finished sibling scope's variable into a new variable of the same name
+    from ..report import Collector as _C127
+    from . import c02 as _c02_12
+
+    sub127 = _C127("C02")
+    _c02_12.run(model, sub127, "quick")
+    n127 = 0
+    for ob in sub127.obligations:
+        if ob.rule == "R02.7":
+            ob.detail = "[R02.7] " + (ob.detail or "")
+            ob.rule = "R12.4"
+            col.obligations.append(ob)
+            n127 += 1
+    col.floor("R12.4", "forwarding obligations shared with C02", n127, 3)
     # ... and every execution of a declaration creates it: the declare instruction is emitted on every path (= R01.4)
     from ..report import Collector as _C124
 
